@@ -269,11 +269,9 @@ func Main(spec *Spec) {
 			os.Exit(2)
 		}
 		want := c.Violation
+		// a case without a recorded schedule is re-run from its scheduler seed
 		script := c.Schedule
-		if script == nil {
-			script = []int16{}
-		}
-		run, v := Exec(spec, c, script, *strict, true, out)
+		run, v := Exec(spec, c, script, *strict && script != nil, true, out)
 		c.Violation = v
 		c.Trace = core.FormatLog(run.Res.Log)
 		c.History = FormatHistory(c, run.Recs)
